@@ -267,7 +267,7 @@ func concurrent(e *env, prop string, mode int) {
 				w.Fail(rig.GoFailure{Kind: "counterexample", What: "a connection held more than one key lock at a time: " + rg.MultiHeld, Input: pp})
 			}
 			if rg.SplitKey != "" {
-				w.Fail(rig.GoFailure{Kind: "counterexample", What: "backend requests on one key were made under different key locks: " + rg.SplitKey, Input: pp})
+				w.Fail(rig.GoFailure{Kind: "counterexample", What: "key locking: " + rg.SplitKey, Input: pp})
 			}
 			if rg.LocksHeld() != 0 {
 				w.Fail(rig.GoFailure{Kind: "counterexample", What: "a key lock is still held after all connections finished", Input: pp, Detail: fmt.Sprint(rg.LocksHeld())})
